@@ -688,6 +688,14 @@ func c07DeleteEvent(pod *corev1.Pod, tombstone bool) interface{} {
 	return pod
 }
 
+// c07StripAllocation is the pod as delivered after its device-allocated annotation was removed (the pod stays assigned
+// and running): by its own record it holds no device any more.
+func c07StripAllocation(pod *corev1.Pod) *corev1.Pod {
+	out := pod.DeepCopy()
+	delete(out.Annotations, apiext.AnnotationDeviceAllocated)
+	return out
+}
+
 func c07NewPod(name string, req corev1.ResourceList) *corev1.Pod {
 	return &corev1.Pod{
 		ObjectMeta: metav1.ObjectMeta{Namespace: "default", Name: name, UID: types.UID(name)},
@@ -1030,7 +1038,7 @@ func TestVerifC07History(t *testing.T) {
 		capacityHolds := true
 		var released []*c07Live
 		var completed []*c07Live // pods that reached a terminal phase and whose object still exists (not yet deleted)
-		var sawCompletedUpdate, sawTerminatedAdd, sawTombstone bool
+		var sawCompletedUpdate, sawTerminatedAdd, sawTombstone, sawAnnotationDropped bool
 		var sawShare, sawMulti, sawUnhealthy, sawLossUnderPods, sawRefused, sawSuccess, sawDup, sawTwice, sawChanged, sawDeleted bool
 		var ntDupThenRelease, ntRefreshBetween bool
 		for _, d := range w.inv {
@@ -1222,10 +1230,18 @@ func TestVerifC07History(t *testing.T) {
 					completed = append(completed, p)
 					note(fmt.Sprintf("podUpdate running->%s %s", done.Status.Phase, p.Name))
 				case 2: // another scheduler un-assigned the pod
-					un := p.Bound.DeepCopy()
-					un.Spec.NodeName = ""
-					w.cache.onPodUpdate(p.Bound, un)
-					note("podUpdate unassigned " + p.Name)
+					if len(hist)%2 == 0 { // no draw (keeps this test's draw sequence): every other time the pod instead loses its annotation
+						stripped := c07StripAllocation(p.Bound)
+						w.cache.onPodUpdate(p.Bound, stripped)
+						p.Bound = stripped // later events for the pod carry no allocation
+						sawAnnotationDropped = true
+						note("podUpdate allocation annotation removed " + p.Name)
+					} else {
+						un := p.Bound.DeepCopy()
+						un.Spec.NodeName = ""
+						w.cache.onPodUpdate(p.Bound, un)
+						note("podUpdate unassigned " + p.Name)
+					}
 				default: // Unreserve
 					nd := w.cache.getNodeDevice(c07Node, false)
 					nd.lock.Lock()
@@ -1487,6 +1503,7 @@ func TestVerifC07History(t *testing.T) {
 		c.ClassIf(sawChanged, "allocation-changed-by-update")
 		c.ClassIf(sawDeleted, "device-cr-deleted")
 		c.ClassIf(sawTombstone, "delete-delivered-as-tombstone")
+		c.ClassIf(sawAnnotationDropped, "update-removes-allocation-annotation-of-live-pod")
 		c.ClassIf(sawCompletedUpdate, "update-of-already-completed-pod")
 		c.ClassIf(sawTerminatedAdd, "add-of-already-terminated-pod")
 		c.ClassIf(ntDupThenRelease, "nt:duplicate-then-release")
